@@ -337,3 +337,101 @@ Proof.
 Qed.
 
 End Restart.
+
+(* ---------- Date scheme: the scan in mode "a" recovers exactly today's files (partial: see report) ---------- *)
+Section RestartDate.
+Variable c : cfg.
+Hypothesis Hdate : c_scheme c = SDate.
+Notation lp := (live_path c).
+
+Lemma date_not_index : is_index c = false.
+Proof. unfold is_index. rewrite Hdate. reflexivity. Qed.
+
+Definition today_of (today : comp) (f : finfo) : bool := comp_eqb (fdt f) today.
+
+Lemma recover_fname_date : forall today f0, rot_wf c f0 -> (8 <= N.of_nat (length today)) ->
+  dec (fidx f0) <> today ->
+  recover c today (fname f0) = if today_of today f0 then Some (forget f0) else None.
+Proof.
+  intros today f0 [Hb Hr] L8 Hdi. rewrite date_not_index in Hr.
+  destruct f0 as [b i d g]. cbn [fbase fidx fdt] in *. subst b.
+  unfold fname, forget, today_of. cbn [fbase fidx fdt g_open].
+  unfold get_filename. destruct d as [|d0 dr]; [congruence|]. cbn [comp_empty].
+  unfold live_path, append_comp. cbn [removelast last app].
+  destruct (i =? 0) eqn:Z.
+  - apply N.eqb_eq in Z. subst i.
+    unfold recover, ext_ok, stem_ok. cbn [rev app]. rewrite !comp_eqb_refl. cbn [andb]. rewrite Hdate.
+    destruct (comp_eqb (d0 :: dr) today) eqn:E.
+    + apply comp_eqb_eq in E. rewrite E in *. apply N.leb_le in L8. rewrite L8. reflexivity.
+    + rewrite andb_false_r. reflexivity.
+  - cbn [removelast last app].
+    unfold recover, ext_ok, stem_ok. cbn [rev app]. rewrite !comp_eqb_refl. cbn [andb]. rewrite Hdate.
+    assert (X : comp_eqb (dec i) today = false) by (apply comp_eqb_neq; auto).
+    rewrite X, andb_false_r.
+    destruct (comp_eqb (d0 :: dr) today); auto. rewrite stoul_dec. reflexivity.
+Qed.
+
+Lemma filter_sorted : forall today l,
+  Forall (rot_wf c) l -> ordp l ->
+  StronglySorted ltidx (map forget (filter (today_of today) l)).
+Proof.
+  induction l as [|a l IH]; intros F O; cbn [filter map]; [constructor|].
+  inversion F as [|? ? Fa Fl]; subst. inversion O as [|? ? Oa Ol]; subst.
+  destruct (today_of today a) eqn:Ta; [|apply IH; auto].
+  cbn [map]. constructor; [apply IH; auto|].
+  rewrite Forall_forall in *. intros y Hy. apply in_map_iff in Hy as [z [Ez Hz]]. subst y.
+  apply filter_In in Hz as [Hz Tz]. unfold ltidx. cbn [forget fidx]. apply Oa; auto.
+  unfold today_of in *. apply comp_eqb_eq in Ta. apply comp_eqb_eq in Tz. congruence.
+Qed.
+
+Lemma recover_date : forall today s, Inv c s -> NoDup (keys (fs s)) ->
+  8 <= N.of_nat (length today) -> (forall f, In f (tl (dq s)) -> dec (fidx f) <> today) ->
+  scan_recover c today (fs s) = map forget (filter (today_of today) (tl (dq s))).
+Proof.
+  intros today s HI ND L8 Hdi.
+  destruct (I_head c s HI) as [rest [E F]]. pose proof (I_ord c s HI) as O.
+  assert (REC : forall n cn x, In (n, cn) (fs s) -> recover c today n = Some x ->
+                  exists f0, In f0 rest /\ today_of today f0 = true /\ n = fname f0 /\ x = forget f0).
+  { intros n cn x Hin R. pose proof (recover_related c _ _ _ R) as Rn.
+    assert (G : fs_get n (fs s) <> None).
+    { intro G. apply fs_get_none_keys in G. apply G. unfold keys. apply (in_map fst) in Hin. exact Hin. }
+    apply (I_disk c s HI n Rn) in G. unfold names in G. apply in_map_iff in G as [f0 [E0 H0]].
+    rewrite E in H0. destruct H0 as [H0|H0].
+    - subst f0. rewrite fname_live in E0. subst n. rewrite recover_lp in R. discriminate.
+    - rewrite Forall_forall in F. pose proof (F f0 H0) as W.
+      rewrite <- E0, (recover_fname_date today f0 W L8) in R by (apply Hdi; rewrite E; auto).
+      destruct (today_of today f0) eqn:T; [|discriminate]. exists f0. repeat split; auto. congruence. }
+  assert (OR : ordp rest) by (rewrite E in O; inversion O; auto).
+  unfold scan_recover. rewrite fold_recover, app_nil_r. rewrite E. cbn [tl].
+  apply ssorted_unique.
+  - apply sort_sorted. rewrite map_rev. apply NoDup_rev.
+    (* recovered entries are determined by their index *)
+    assert (P : forall e, In e (fs s) -> forall x, recover c today (fst e) = Some x ->
+                  fname x = fst e /\ x = {| fbase := lp; fidx := fidx x; fdt := today; g_open := 0 |}).
+    { intros [n cn] He x R. cbn [fst] in *. destruct (REC n cn x He R) as [f0 [H0 [T [E1 E2]]]]. subst.
+      split; [apply fname_forget|]. rewrite Forall_forall in F. destruct (F f0 H0) as [Fb _].
+      unfold today_of in T. apply comp_eqb_eq in T. unfold forget. cbn [fidx]. rewrite Fb, T. reflexivity. }
+    revert ND P. generalize (fs s). induction d as [|[n cn] d IH]; intros ND P; cbn [fmap flat_map map]; [constructor|].
+    fold (fmap c today d). cbn [keys map fst] in ND. inversion ND as [|? ? N1 N2]; subst.
+    assert (IHd : NoDup (map fidx (fmap c today d))) by (apply IH; auto; intros; apply P; auto; right; auto).
+    cbn [fst]. destruct (recover c today n) as [x|] eqn:R; cbn [app map]; auto.
+    constructor; auto. intro HH. apply in_map_iff in HH as [y [Ey Hy]].
+    apply in_fmap in Hy as [[n' cn'] [He Ry]]. cbn [fst] in Ry.
+    destruct (P (n, cn) (or_introl eq_refl) x R) as [X1 X2]. cbn [fst] in X1.
+    destruct (P (n', cn') (or_intror He) y Ry) as [Y1 Y2]. cbn [fst] in Y1.
+    apply N1. assert (x = y) by (rewrite X2, Y2, Ey; reflexivity). subst y.
+    rewrite <- X1, Y1. unfold keys. apply (in_map fst) in He. exact He.
+  - apply filter_sorted; auto.
+  - intro x. rewrite sort_in, <- in_rev, in_fmap. split.
+    + intros [[n cn] [He R]]. cbn [fst] in R. destruct (REC n cn x He R) as [f0 [H0 [T [_ E2]]]].
+      subst. apply in_map. apply filter_In. auto.
+    + intro Hx. apply in_map_iff in Hx as [f0 [E0 H0]]. subst x. apply filter_In in H0 as [H0 T].
+      rewrite Forall_forall in F. pose proof (F f0 H0) as W.
+      assert (G : fs_get (fname f0) (fs s) <> None).
+      { apply (I_disk c s HI); [apply fname_related; left; auto|]. rewrite E. right. unfold names. apply in_map; auto. }
+      destruct (fs_get (fname f0) (fs s)) as [cn|] eqn:GG; [|congruence].
+      exists (fname f0, cn). split; [apply fs_get_some_in; auto|]. cbn [fst].
+      rewrite (recover_fname_date today f0 W L8) by (apply Hdi; rewrite E; auto). rewrite T. reflexivity.
+Qed.
+
+End RestartDate.
